@@ -32,6 +32,7 @@ META_ATOMS = [
     '0', '1', 'N', 'M', 'T', 'F', 'R', 'NA', 'INF', 'NaN', '>>', '<<', '[', ']', '{', '}', '(', ')', '@', '*',
     'n:1', 'm:', 's:', 'x:', '-:', 'z:', 'r:a', 'u:', 'b:', 'd:2020-01-01', 'h:12:00', 't:', 'c:1,2', 'x:T:p',
     'ver:"3.0"', '\n\n', '\r\n', '\\n', '\\u0041', '\\"', 'a', 'Z', '-', '\\$', '${x}', '\\\\',
+    '\\:', '\\#', '\\/', '\\;', 'C:\\dir\\file', '\\\\srv\\share', 'a\\?b=1&c', '\\[', '\\@',
 ]
 C0_BAD = ''.join(chr(c) for c in range(0x20) if chr(c) not in '\b\f\n\r\t')
 
@@ -45,7 +46,7 @@ def text(max_atoms=8, min_size=0):
 
 def names(max_size=6):
     pool = st.sampled_from(['a', 'b', 'c', 'id', 'dis', 'val', 'x1', 'fooBar', 'n', 'm', 'na', 't', 'e', 'inf',
-                            'not', 'and', 'or', 'siteRef', 'a_b', 'zZ9_'])
+                            'not', 'and', 'or', 'siteRef', 'a_b', 'zZ9_', 'meta', 'cols', 'rows', 'ver', 'name', 'true', 'null'])
     free = st.builds(lambda f, r: f + r, st.sampled_from(NAME_FIRST),
                      st.text(alphabet=NAME_REST, max_size=max_size))
     return pool | free
@@ -241,6 +242,11 @@ def dict_keys():
     return names().filter(lambda n: n != 'rows')
 
 
+def _kinds(m):
+    from .model import kinds
+    return kinds(m)
+
+
 def values(ver, depth=2, excl=frozenset(), uri_conformant=False, with_null=True):
     """any value incl. containers (3.0 only), container nesting <= depth."""
     return _values(ver, depth, frozenset(excl), uri_conformant, with_null)
@@ -256,7 +262,10 @@ def _values(ver, depth, excl, uri_conformant, with_null):
     dicts = st.lists(st.tuples(dict_keys(), inner), max_size=3, unique_by=lambda kv: kv[0]).map(
         lambda kv: ['dict', [list(x) for x in kv]])
     grids_ = _grids('3.0', depth - 1, excl, uri_conformant, 2, 2, 1)
-    return st.one_of(sc, sc, sc, lists, dicts, grids_)
+    # a nested grid may carry an older label (its own rules apply inside it); Bin is left out there, because the
+    # 2.0 Bin literal inside a 3.0 document is not something either grammar defines
+    old = _grids('2.0', 0, excl, uri_conformant, 2, 2, 1).filter(lambda g: not any(k == 'bin' for _, k in _kinds(g)))
+    return st.one_of(sc, sc, sc, lists, dicts, grids_, grids_, old)
 
 
 @_cached
@@ -373,6 +382,14 @@ def catalogue_grids(excl=frozenset()):
                     if v[0] != 'null':
                         out.append(['grid', ver, [], [['a', []]],
                                     [[['a', ['grid', '3.0', [['gm', v]], [['x', [['cm', v]]]], [[['x', v]]]]]]]])
+        out.append(['grid', ver, [['meta', ['marker']], ['cols', ['num', 1.0]]],
+                    [['meta', [['rows', ['str', 'x']]]], ['cols', []], ['rows', []], ['name', []], ['ver', []]],
+                    [[['meta', ['num', 1.0]], ['cols', ['str', 'c']], ['rows', ['marker']], ['name', ['str', 'n']], ['ver', ['str', 'v']]],
+                     [['rows', ['num', 2.0]]]]])
+        if ver == '3.0':
+            inner2 = ['grid', '2.0', [['im', ['remove']]], [['x', [['cm', ['remove']]]]], [[['x', ['remove']]], [['x', ['num', 1.0]]]]]
+            out.append(['grid', ver, [['gm', inner2]], [['a', []]], [[['a', inner2]], [['a', ['list', [inner2, ['remove']]]]]]])
+            out.append(['grid', ver, [], [['a', []]], [[['a', ['dict', [['a', ['null']], ['b', ['num', 1.0]]]]]]]])
         # one wide and long grid per version: 14 columns x 40 rows cycling through every scalar sample,
         # with sparse rows, 12 grid-metadata tags and metadata on every column
         pool = [v for vals in sorted(samples.items()) for v in vals[1] if v[0] not in ('null', 'grid')]
@@ -396,7 +413,8 @@ def _digit_group(max_size=6):
 def number_literals(underscores=True):
     grp = _digit_group() if underscores else st.text(alphabet='0123456789', min_size=1, max_size=6)
     exp = st.builds(lambda e, s, d: e + s + d, st.sampled_from('eE'), st.sampled_from(['', '+', '-']),
-                    st.text(alphabet='0123456789', min_size=1, max_size=2) | st.sampled_from(['0', '00', '10', '22', '300', '308', '309', '324']))
+                    (st.text(alphabet='0123456789', min_size=1, max_size=2) | st.sampled_from(['0', '00', '10', '22', '300', '308', '309', '324'] + (
+                        ['1_0', '0_3', '2_2', '0__1'] if underscores else []))))
     return st.builds(lambda sign, i, f, e: sign + i + f + e, st.sampled_from(['', '', '-']), grp,
                      st.one_of(st.just(''), grp.map(lambda g: '.' + g)), st.one_of(st.just(''), st.just(''), exp))
 
